@@ -233,6 +233,77 @@ func ruleCaretAlign(p *Prog, r *Result) {
 		r.undecided("the caret column %s is not `offset + constants/parameters`", ref)
 		return
 	}
+	// (1b) re-basing: what is taken off the caller's offset to make it an offset into the shown (trimmed) text is
+	// computed from that text - strings.Index(query, trimmed), or a difference of lengths of the query and a trimmed
+	// form of it - not by a separate count of blanks, which has to agree with TrimSpace on what a blank is
+	{
+		leafSet := map[ssa.Value]bool{}
+		seenV := map[ssa.Value]bool{}
+		var collect func(v ssa.Value, d int)
+		onStack := map[ssa.Value]bool{}
+		collect = func(v ssa.Value, d int) {
+			if onStack[v] {
+				// a loop-carried counter: not a quantity computed from the text
+				leafSet[v] = true
+				return
+			}
+			if seenV[v] || d > 8 {
+				return
+			}
+			seenV[v] = true
+			if ph, ok := v.(*ssa.Phi); ok {
+				onStack[v] = true
+				for _, e := range ph.Edges {
+					collect(e, d+1)
+				}
+				delete(onStack, v)
+				return
+			}
+			for k := range linOf(v, 6).coef {
+				if _, isPhi := k.(*ssa.Phi); isPhi {
+					collect(k, d+1)
+					continue
+				}
+				leafSet[k] = true
+			}
+		}
+		collect(P, 0)
+		bad := ""
+		for v := range leafSet {
+			if _, isParam := v.(*ssa.Parameter); isParam {
+				continue
+			}
+			okLeaf := false
+			if c, ok := v.(*ssa.Call); ok {
+				nm := p.calleeName(&c.Call)
+				if bi, isB := c.Call.Value.(*ssa.Builtin); isB {
+					nm = bi.Name()
+				}
+				switch {
+				case strings.HasPrefix(nm, "strings.Index") || nm == "strings.LastIndex":
+					for _, a := range c.Call.Args {
+						if fromTrim(a) {
+							okLeaf = true
+						}
+					}
+				case nm == "len" && len(c.Call.Args) == 1:
+					a := c.Call.Args[0]
+					if _, isParam := a.(*ssa.Parameter); isParam {
+						okLeaf = true
+					}
+					if ac, ok := a.(*ssa.Call); ok && strings.HasPrefix(p.calleeName(&ac.Call), "strings.Trim") {
+						okLeaf = true
+					}
+				case nm == "min" || nm == "max":
+					okLeaf = true
+				}
+			}
+			if !okLeaf {
+				bad = fmt.Sprintf("%s (%s)", v.Name(), v.String())
+			}
+		}
+		r.add(bad == "", "rebase", p.Pos(fn.Pos()), firstNonEmpty(map[bool]string{true: "the offset is re-based by " + bad + ", which is not computed from the trimmed text: a separate count of leading blanks has to agree with strings.TrimSpace on every blank"}[bad != ""], "the offset is re-based by a quantity computed from the trimmed text itself"))
+	}
 	type tp struct {
 		t, p ssa.Value
 	}
@@ -1053,6 +1124,26 @@ func ruleAliasGuard(p *Prog, r *Result) {
 		}
 		r.add(dom, fmt.Sprintf("(*SelectStmt).ValidateFields|check#%d", i+1), p.InstrPos(c), "checking a select field (which resolves names to aliases) is preceded on every path by the alias-cycle guard, whose error ends the validation")
 	}
+	// what a reference stands for is decided once, where the reference is made: nothing stores into the FieldExpr
+	// of a reference it did not just allocate (re-pointing references by name after the fact binds a duplicated
+	// name to another field than the checker and the projection do, and can close a cycle behind the guard)
+	nRef := 0
+	for _, fn := range p.Funcs {
+		allInstrs(fn, func(in ssa.Instruction) {
+			st, ok := in.(*ssa.Store)
+			if !ok {
+				return
+			}
+			o, f, base, ok := fieldOfAddr(st.Addr)
+			if !ok || o == nil || o.Obj().Name() != "FieldReferenceExpr" || f != "FieldExpr" {
+				return
+			}
+			nRef++
+			_, fresh := base.(*ssa.Alloc)
+			r.add(fresh, fmt.Sprintf("%s|retarget#%d", p.FName(fn), nRef), p.InstrPos(in), "the target of an alias reference is set where the reference is allocated, never on an existing reference")
+		})
+	}
+	r.floor("stores into FieldReferenceExpr.FieldExpr", nRef, 2)
 }
 
 // ---------------- RTPURE ----------------
@@ -2402,6 +2493,25 @@ func ruleCmpMixed(p *Prog, r *Result) {
 					if f == fn && v == ssa.Value(tpParam) {
 						return aval{kind: 1, i: declared.code}, true
 					}
+					// reflect.TypeOf(l) ==/!= reflect.TypeOf(r): the scenario fixes both dynamic types (int64, float64)
+					if bo, ok := v.(*ssa.BinOp); ok && (bo.Op == token.EQL || bo.Op == token.NEQ) {
+						kindOf := func(x ssa.Value) string {
+							c, ok := x.(*ssa.Call)
+							if !ok || p.calleeName(&c.Call) != "reflect.TypeOf" || len(c.Call.Args) != 1 {
+								return ""
+							}
+							if pa, ok := stripConv(c.Call.Args[0]).(*ssa.Parameter); ok {
+								return bound[pa]
+							}
+							return ""
+						}
+						if a, b := kindOf(bo.X), kindOf(bo.Y); a != "" && b != "" {
+							if (a == b) == (bo.Op == token.EQL) {
+								return aval{kind: 2, b: abTrue}, true
+							}
+							return aval{kind: 2, b: abFalse}, true
+						}
+					}
 					return aval{}, false
 				}
 				as.typeTest = func(f *ssa.Function, ta *ssa.TypeAssert, bound map[*ssa.Parameter]string) (abool, bool) {
@@ -2435,6 +2545,17 @@ func ruleCmpMixed(p *Prog, r *Result) {
 					}
 					if ev := res.ev(retVal(ret, 0)); ev.kind == 1 && ev.i == 0 {
 						bad = "the value returned at " + p.InstrPos(ret) + " is the constant 0 (`equal`) of a helper that has no case for numbers"
+					}
+					// two integers are compared as integers: converted to float64 first, distinct integers above
+					// 2^53 become equal
+					if lk == "int" && rk == "int" {
+						if c, ok := retVal(ret, 0).(*ssa.Call); ok {
+							for _, a := range c.Call.Args {
+								if bt, isB := a.Type().Underlying().(*types.Basic); isB && bt.Info()&types.IsFloat != 0 {
+									bad = "two integer cells reach the float comparison at " + p.InstrPos(c) + ": integers above 2^53 that differ compare as equal"
+								}
+							}
+						}
 					}
 				}
 				r.add(bad == "", fmt.Sprintf("%s|left=%s,right=%s%s", p.FName(fn), lk, rk, declared.name), p.Pos(fn.Pos()), firstNonEmpty(bad, "the outcome comes from a comparison helper"))
@@ -2477,6 +2598,10 @@ func ruleQuantRange(p *Prog, r *Result) {
 			inRange = func(v ssa.Value, at *ssa.BasicBlock, depth int) (lower, upper bool) {
 				for _, a := range dominatingAtoms(at) {
 					if a.X != v {
+						continue
+					}
+					// a negated float comparison proves nothing: `!(q < 0)` holds for NaN
+					if bt, isB := v.Type().Underlying().(*types.Basic); isB && bt.Info()&types.IsFloat != 0 && a.Neg {
 						continue
 					}
 					k, ok := a.Y.(*ssa.Const)
@@ -2930,24 +3055,92 @@ func ruleReorderKind(p *Prog, r *Result) {
 			guardOK[ck] = "not a predicate of two constants (and the operand)"
 			return guardOK[ck]
 		}
-		nodeOf := map[string]string{"text": "StringExpr", "int": "NumberExpr", "float": "FloatExpr"}
+		nodeOf := map[string]string{"text": "StringExpr", "int": "NumberExpr", "float": "FloatExpr", "operand-float": "FloatExpr", "operand-ref": "FieldReferenceExpr", "operand-call": "FunctionCallExpr"}
 		bad := ""
+		tnumber, _ := p.constOf("TNUMBER")
+		// roleOf: the binding of the parameter a value was obtained from (through assertions, conversions, and - for
+		// parts of the operand - field and element loads)
+		var roleOf func(v ssa.Value, bound map[*ssa.Parameter]string, d int) (string, bool)
+		roleOf = func(v ssa.Value, bound map[*ssa.Parameter]string, d int) (role string, part bool) {
+			if d > 8 {
+				return "", false
+			}
+			switch x := v.(type) {
+			case *ssa.Parameter:
+				return bound[x], false
+			case *ssa.Extract:
+				return roleOf(x.Tuple, bound, d+1)
+			case *ssa.TypeAssert:
+				return roleOf(x.X, bound, d+1)
+			case *ssa.ChangeInterface:
+				return roleOf(x.X, bound, d+1)
+			case *ssa.MakeInterface:
+				return roleOf(x.X, bound, d+1)
+			case *ssa.UnOp:
+				rl, _ := roleOf(x.X, bound, d+1)
+				return rl, true
+			case *ssa.FieldAddr:
+				rl, _ := roleOf(x.X, bound, d+1)
+				return rl, true
+			case *ssa.IndexAddr:
+				rl, _ := roleOf(x.X, bound, d+1)
+				return rl, true
+			}
+			return "", false
+		}
+		opName := ""
 		runWith := func(bindings map[*ssa.Parameter]string, what string) {
 			as := &assumption{p: p}
-			as.leaf = func(*ssa.Function, ssa.Value, map[*ssa.Parameter]string) (aval, bool) { return aval{}, false }
+			as.leaf = func(f *ssa.Function, v ssa.Value, bound map[*ssa.Parameter]string) (aval, bool) {
+				if sc, ok := constString(v); ok {
+					return aval{kind: 1, i: strCodeOf(sc)}, true
+				}
+				// the static type of the operand (and of its parts) is Number: that covers integers and floats
+				if c, ok := v.(*ssa.Call); ok {
+					var recv ssa.Value
+					isRT := false
+					if c.Call.IsInvoke() && c.Call.Method.Name() == "ReturnType" {
+						recv, isRT = c.Call.Value, true
+					} else if g := c.Call.StaticCallee(); g != nil && g.Name() == "ReturnType" && len(c.Call.Args) > 0 {
+						recv, isRT = c.Call.Args[0], true
+					}
+					if isRT {
+						if rl, _ := roleOf(recv, bound, 0); strings.HasPrefix(rl, "operand") {
+							return aval{kind: 1, i: tnumber}, true
+						}
+					}
+				}
+				// the name of the called function, when the operand is a call
+				if ex, ok := v.(*ssa.Extract); ok {
+					if c, ok := ex.Tuple.(*ssa.Call); ok {
+						if g := c.Call.StaticCallee(); g != nil && g.Name() == "GetFuncNameFromExpr" && len(c.Call.Args) == 1 {
+							if rl, part := roleOf(c.Call.Args[0], bound, 0); strings.HasPrefix(rl, "operand") && !part && opName != "" {
+								if ex.Index == 0 {
+									return aval{kind: 1, i: strCodeOf(opName)}, true
+								}
+								return aval{kind: 3, isNil: abTrue}, true
+							}
+						}
+					}
+				}
+				return aval{}, false
+			}
 			as.typeTest = func(f *ssa.Function, ta *ssa.TypeAssert, bound map[*ssa.Parameter]string) (abool, bool) {
-				pa, ok := stripConv(ta.X).(*ssa.Parameter)
-				if !ok || bound[pa] == "" {
+				rl, part := roleOf(ta.X, bound, 0)
+				if rl == "" || part {
 					return abBoth, false
 				}
-				if typeName(deref(ta.AssertedType)) == nodeOf[bound[pa]] {
+				if typeName(deref(ta.AssertedType)) == nodeOf[rl] {
 					return abTrue, true
+				}
+				if _, isIface := ta.AssertedType.Underlying().(*types.Interface); isIface {
+					return abBoth, false
 				}
 				return abFalse, true
 			}
 			as.bind = func(f *ssa.Function, arg ssa.Value, bound map[*ssa.Parameter]string) string {
-				if pa, ok := stripConv(arg).(*ssa.Parameter); ok {
-					return bound[pa]
+				if rl, part := roleOf(arg, bound, 0); !part {
+					return rl
 				}
 				return ""
 			}
@@ -2972,10 +3165,22 @@ func ruleReorderKind(p *Prog, r *Result) {
 		b := map[*ssa.Parameter]string{ps[0]: "int", ps[1]: "int"}
 		what := "two integer constants whatever the operand they are re-associated away from is (the guard does not see it)"
 		if operand != nil {
-			b[operand] = "float"
+			b[operand] = "operand-float"
 			what = "two integer constants next to a float operand"
 		}
 		runWith(b, what)
+		if operand != nil {
+			// ... and an operand whose static type is Number is not thereby an integer: an alias of a float
+			// field, a call of float(), an aggregate over floats
+			b[operand] = "operand-ref"
+			runWith(b, "two integer constants next to a field reference of static type Number (which may be a float)")
+			b[operand] = "operand-call"
+			for _, nm := range []string{"float", "sum", "min", "max", "avg"} {
+				opName = nm
+				runWith(b, "two integer constants next to a call of "+nm+"() (whose result may be a float)")
+			}
+			opName = ""
+		}
 		guardOK[ck] = bad
 		return bad
 	}
